@@ -9,6 +9,8 @@ import (
 	"verif/harness/cmdx"
 )
 
+// TestLeak guards the reflection in healthCloser (see fsmx.go): long explorations open millions of
+// instances and must not accumulate goroutines.
 func TestLeak(t *testing.T) {
 	for _, upd := range []bool{false, true} {
 		before := runtime.NumGoroutine()
@@ -28,5 +30,8 @@ func TestLeak(t *testing.T) {
 		var ms runtime.MemStats
 		runtime.ReadMemStats(&ms)
 		t.Logf("update=%v goroutines before=%d after=%d heap=%dKB", upd, before, runtime.NumGoroutine(), ms.HeapInuse>>10)
+		if runtime.NumGoroutine() > before+50 {
+			t.Fatalf("fsmx.Inst.Close no longer stops the disk-health ticker: %d goroutines left behind by 300 open/close cycles", runtime.NumGoroutine()-before)
+		}
 	}
 }
